@@ -42,6 +42,9 @@ CONSTANTS
     PhaseLen,    \* blocks per phase
     DealBlock,   \* block carrying the commitments and evaluations of the other dealers
     AccBlock,    \* block carrying a (false) accusation against this keyper, -1 = none
+    SyncEvery,   \* catch-up: the keyper calls SyncAppWithDB only after the blocks h with
+    SyncOff,     \*   h % SyncEvery = SyncOff (and after the last block); one call then handles
+                 \*   several blocks, each in its own transaction (fetchEvents2)
     LoadMode,    \* "nilsafe" | "gobzero"
     MaxCrashes   \* bound on the number of crashes in one behaviour (guard of Crash, no state constraint)
 
@@ -49,6 +52,8 @@ Off == 0   Dealing == 1   Accusing == 2   Apologizing == 3   Finalized == 4
 LastBlock == 3 * PhaseLen + 1
 
 CodeOk == 0   CodeError == 1   CodeSeen == 2
+
+SyncNow(h) == h % SyncEvery = SyncOff \/ h = LastBlock
 
 PhaseAt(h) ==
     IF h < 0 THEN Off
@@ -195,7 +200,8 @@ DoTxBody(s)    == LET x == TxBody(s, s.db.sync + 1) IN [s EXCEPT !.mem = x.mem, 
 CanTxCommit(s) == s.mem.alive /\ s.tx.on
 DoTxCommit(s)  == [s EXCEPT !.db = s.tx.db, !.tx.on = FALSE]
 
-(* sync() returns when every closed block is applied; then the outbox is sent *)
+(* sync() / fetchEvents2 applies the closed blocks one transaction after the other and returns when
+   every closed block is applied; then the outbox is sent *)
 CanSyncDone(s) == s.pc = "sync" /\ ~s.tx.on /\ s.db.sync = s.head /\ s.mem.alive
 DoSyncDone(s)  == [s EXCEPT !.pc = IF s.head = LastBlock THEN "done" ELSE "post"]
 
@@ -213,7 +219,8 @@ DoDeleteHead(s)  == [s EXCEPT !.db.outbox = Tail(@), !.inflight = FALSE]
 
 (* the harness closes the block when the keyper has nothing left to send *)
 CanClose(s) == s.mem.alive /\ s.pc = "post" /\ ~s.inflight /\ s.db.outbox = <<>> /\ s.head < LastBlock
-DoClose(s)  == [s EXCEPT !.head = @ + 1, !.blocks = Append(@, s.open), !.open = <<>>, !.pc = "sync"]
+DoClose(s)  == [s EXCEPT !.head = @ + 1, !.blocks = Append(@, s.open), !.open = <<>>,
+                          !.pc = IF SyncNow(s.head + 1) THEN "sync" ELSE "post"]
 
 (* the process dies: memory, open transaction and in-flight knowledge are gone *)
 CanCrash(s) == s.mem.alive /\ s.pc # "done" /\ s.crashes < MaxCrashes
@@ -223,6 +230,6 @@ CanRestart(s) == ~s.mem.alive
 DoRestart(s)  == [s EXCEPT !.mem = MemFresh]
 
 (* the state the harness starts from: block 0 is closed, not yet applied *)
-InitState == [Init0 EXCEPT !.blocks = <<<<>>>>]
+InitState == [Init0 EXCEPT !.blocks = <<<<>>>>, !.pc = IF SyncNow(0) THEN "sync" ELSE "post"]
 
 =============================================================================
